@@ -10,6 +10,8 @@ import (
 	"fmt"
 	"io"
 	"math"
+	"math/big"
+	"runtime"
 	"sort"
 	"strings"
 	"unicode/utf8"
@@ -27,6 +29,7 @@ type val struct {
 	Off  int    `json:"off,omitempty"`
 	Len  int    `json:"len,omitempty"` // payload descriptor when B == nil and Len > 0
 	NZ   bool   `json:"nz,omitempty"`
+	Bits uint64 `json:"bits,omitempty"` // kind "double": the IEEE-754 pattern
 }
 
 func (v val) bytes() []byte {
@@ -52,7 +55,7 @@ func payloadNZ(off, n int) []byte {
 }
 func (v val) bytesTerm() string {
 	if v.B != nil || v.Len == 0 {
-		return core.Hex(v.B)
+		return hexl(v.B)
 	}
 	if v.NZ {
 		return fmt.Sprintf("(payload_nz %d %d)", v.Off, v.Len)
@@ -69,6 +72,8 @@ func (v val) term() string {
 		return "(VStr " + v.bytesTerm() + ")"
 	case "strb":
 		return "(VStrB " + v.bytesTerm() + ")"
+	case "double":
+		return "(VDouble " + dbits(v.Bits) + ")"
 	default:
 		return "(VBytes " + v.bytesTerm() + ")"
 	}
@@ -90,6 +95,8 @@ func put(m *message.Message, v val) error {
 		return m.PutString(ctx, string(v.bytes()))
 	case "strb":
 		return m.PutStringBytes(ctx, v.bytes())
+	case "double":
+		return m.PutDouble(ctx, math.Float64frombits(v.Bits))
 	default:
 		return m.PutBytes(ctx, v.bytes())
 	}
@@ -124,11 +131,122 @@ func specEncode(enc bool, vs []val) []byte {
 			}
 			b.Write(s)
 			b.WriteByte(0)
+		case "double":
+			fi, e := specDoubleInts(v.Bits)
+			i64(fi)
+			i64(e)
 		default:
 			b.Write(v.bytes())
 		}
 	}
 	return b.Bytes()
+}
+
+// ---- doubles: independent reference written from the format description ----
+// A double d = frac * 2^exp with 1/2 <= |frac| < 1 travels as the two integers
+// trunc(frac * (2^31-1)) and exp; it is rebuilt as (fracInt / (2^31-1)) * 2^exp.
+// All arithmetic below is math/big (no float64 operation, no math.Frexp/Ldexp):
+// the IEEE roundings are reproduced with big.Float at 53 bits, round-to-nearest-even.
+
+const specFracConst = 2147483647 // 2^31 - 1, from the protocol description
+
+func finiteBits(b uint64) bool { return (b>>52)&0x7ff != 0x7ff }
+
+// decompose a finite pattern into sign, integer mantissa and exponent: |d| = m * 2^e
+func decompose(b uint64) (neg bool, m uint64, e int) {
+	neg = b>>63 == 1
+	E := int((b >> 52) & 0x7ff)
+	M := b & (1<<52 - 1)
+	if E == 0 {
+		return neg, M, -1074
+	}
+	return neg, M | 1<<52, E - 1075
+}
+
+func bigOfBits(b uint64) *big.Float {
+	neg, m, e := decompose(b)
+	x := new(big.Float).SetPrec(64).SetUint64(m)
+	x.SetMantExp(x, e)
+	if neg {
+		x.Neg(x)
+	}
+	return x
+}
+
+// specDoubleInts: the integers the format prescribes for a finite double.
+func specDoubleInts(b uint64) (int64, int64) {
+	neg, m, e := decompose(b)
+	if m == 0 {
+		return 0, 0
+	}
+	n := 64 - leadingZeros(m)                       // m has n bits: frac = m / 2^n, exp = e + n
+	frac := new(big.Float).SetPrec(64).SetUint64(m) // exact
+	frac.SetMantExp(frac, -n)
+	prod := new(big.Float).SetPrec(53).SetMode(big.ToNearestEven)
+	prod.Mul(frac, new(big.Float).SetPrec(53).SetInt64(specFracConst)) // float64 product
+	k, _ := prod.Int(nil)                                              // truncation
+	fi := k.Int64()
+	if neg {
+		fi = -fi
+	}
+	return fi, int64(e + n)
+}
+func leadingZeros(x uint64) int {
+	n := 0
+	for i := 63; i >= 0 && x>>uint(i)&1 == 0; i-- {
+		n++
+	}
+	return n
+}
+
+// specDoubleDecode: the double the format prescribes for two wire integers (after
+// their truncation to int32), as a bit pattern.
+func specDoubleDecode(fi64, e64 int64) uint64 {
+	fi, e := int32(fi64), int32(e64)
+	if fi == 0 {
+		return 0
+	}
+	q := new(big.Float).SetPrec(53).SetMode(big.ToNearestEven)
+	q.Quo(new(big.Float).SetPrec(53).SetInt64(int64(fi)), new(big.Float).SetPrec(53).SetInt64(specFracConst))
+	ee := int(e)
+	if ee > 4000 { // far beyond overflow / underflow: keep big.Float's exponent in range
+		ee = 4000
+	} else if ee < -4000 {
+		ee = -4000
+	}
+	q.SetMantExp(q, ee)
+	f, _ := q.Float64() // nearest-even into binary64, subnormals and infinities included
+	return math.Float64bits(f)
+}
+
+// withinPrecision: |got - want| <= |want| * 2^-30, exactly (rationals).
+func withinPrecision(want, got uint64) bool {
+	if !finiteBits(got) {
+		return false
+	}
+	w, _ := new(big.Rat).SetString("0")
+	g, _ := new(big.Rat).SetString("0")
+	ratOfBits(w, want)
+	ratOfBits(g, got)
+	diff := new(big.Rat).Sub(g, w)
+	diff.Abs(diff)
+	bound := new(big.Rat).Abs(w)
+	bound.Mul(bound, new(big.Rat).SetFrac(big.NewInt(1), new(big.Int).Lsh(big.NewInt(1), 30)))
+	return diff.Cmp(bound) <= 0
+}
+func ratOfBits(r *big.Rat, b uint64) {
+	neg, m, e := decompose(b)
+	num := new(big.Int).SetUint64(m)
+	den := big.NewInt(1)
+	if e >= 0 {
+		num.Lsh(num, uint(e))
+	} else {
+		den.Lsh(den, uint(-e))
+	}
+	if neg {
+		num.Neg(num)
+	}
+	r.SetFrac(num, den)
 }
 
 func dig(b []byte) string {
@@ -144,15 +262,19 @@ func dig(b []byte) string {
 	if len(last) > 8 {
 		last = last[len(last)-8:]
 	}
-	return fmt.Sprintf("(%d, %d, %s, %s)", len(b), sum%4294967296, core.Hex(first), core.Hex(last))
+	return fmt.Sprintf("(%d, %d, %s, %s)", len(b), sum%4294967296, hexl(first), hexl(last))
 }
 
 func xframe(f mock.Frame) string {
-	if len(f.Data) <= 96 {
-		return fmt.Sprintf("(XFull %s %s)", core.Bool(f.EOM), core.Hex(f.Data))
+	if len(f.Data) <= fullFrameMax {
+		return fmt.Sprintf("(XFull %s %s)", core.Bool(f.EOM), hexl(f.Data))
 	}
 	return fmt.Sprintf("(XDig %s %s)", core.Bool(f.EOM), dig(f.Data))
 }
+
+// frames up to this many bytes are compared byte for byte with the model, longer
+// ones by (length, checksum, head, tail); raised for the bulk double cases
+var fullFrameMax = 96
 
 type gop struct {
 	Op string `json:"op"`
@@ -173,15 +295,18 @@ func (g gop) term() string {
 		return "GUint32"
 	case "str":
 		return "GStr"
+	case "double":
+		return "GDouble"
 	}
 	return "GRemain"
 }
 
 type gres struct {
-	Kind string // char int bytes err panic
+	Kind string // char int bytes double err panic
 	I    int64
 	B    []byte
 	Cls  int
+	Bits uint64
 }
 
 func (r gres) term() string {
@@ -192,9 +317,11 @@ func (r gres) term() string {
 		return "(RInt " + core.Z(r.I) + ")"
 	case "bytes":
 		if len(r.B) <= 96 {
-			return "(RBytes " + core.Hex(r.B) + ")"
+			return "(RBytes " + hexl(r.B) + ")"
 		}
 		return "(RDig " + dig(r.B) + ")"
+	case "double":
+		return "(RDouble " + dbits(r.Bits) + ")"
 	case "err":
 		return fmt.Sprintf("(RErr %d)", r.Cls)
 	}
@@ -259,6 +386,12 @@ func doGet(m *message.Message, g gop) (res gres) {
 			return wrap(err)
 		}
 		return gres{Kind: "bytes", B: b}
+	case "double":
+		d, err := m.GetDouble(ctx)
+		if err != nil {
+			return wrap(err)
+		}
+		return gres{Kind: "double", Bits: math.Float64bits(d)}
 	}
 	b, err := m.GetRemainingBytes(ctx)
 	if err != nil {
@@ -277,7 +410,7 @@ func framesTerm(fs []mock.Frame, dataTerm string) string {
 		all = append(all, f.Data...)
 	}
 	if dataTerm == "" {
-		dataTerm = core.Hex(all)
+		dataTerm = hexl(all)
 	}
 	le := false
 	if len(fs) > 0 {
@@ -294,9 +427,9 @@ func specTerm(enc bool, vs []val) string {
 		case "str", "strb":
 			if v.B == nil && v.Len > 0 { // NUL-free payload
 				if enc {
-					parts = append(parts, core.Hex(i64(int64(v.Len+1))))
+					parts = append(parts, hexl(i64(int64(v.Len+1))))
 				}
-				parts = append(parts, v.bytesTerm(), core.Hex([]byte{0}))
+				parts = append(parts, v.bytesTerm(), hexl([]byte{0}))
 				continue
 			}
 		case "bytes":
@@ -305,7 +438,7 @@ func specTerm(enc bool, vs []val) string {
 				continue
 			}
 		}
-		parts = append(parts, core.Hex(specEncode(enc, []val{v})))
+		parts = append(parts, hexl(specEncode(enc, []val{v})))
 	}
 	return "(" + strings.Join(parts, " ++ ") + ")%list"
 }
@@ -324,6 +457,8 @@ func opsFor(vs []val) []gop {
 			ops = append(ops, gop{Op: "uint32"})
 		case "str", "strb":
 			ops = append(ops, gop{Op: "str"})
+		case "double":
+			ops = append(ops, gop{Op: "double"})
 		default:
 			ops = append(ops, gop{Op: "bytes", N: int64(len(v.bytes()))})
 		}
@@ -344,11 +479,28 @@ func expect(v val) gres {
 			s = s[:k]
 		}
 		return gres{Kind: "bytes", B: s}
+	case "double":
+		return gres{Kind: "double", Bits: v.Bits}
 	}
 	return gres{Kind: "bytes", B: v.bytes()}
 }
-func sameRes(a, b gres) bool {
-	return a.Kind == b.Kind && a.I == b.I && bytes.Equal(a.B, b.B) && a.Cls == b.Cls
+
+// sameRes: does the decoded result r meet what the sender put (want)?  Integers, chars,
+// strings and bytes exactly; a finite double to within the format's precision
+// (|r - want| <= |want| * 2^-30, exact rational arithmetic) and, in addition, equal to
+// the format's own decoding of the format's own encoding, bit for bit.
+func sameRes(r, want gres) bool {
+	if want.Kind == "double" {
+		if r.Kind != "double" {
+			return false
+		}
+		if !finiteBits(want.Bits) {
+			return true // NaN / infinities: outside the property (see notes); compared with the model only
+		}
+		fi, e := specDoubleInts(want.Bits)
+		return withinPrecision(want.Bits, r.Bits) && r.Bits == specDoubleDecode(fi, e)
+	}
+	return r.Kind == want.Kind && r.I == want.I && bytes.Equal(r.B, want.B) && r.Cls == want.Cls
 }
 
 func encodeCase(c *core.Ctx, enc bool, vs []val) ([]mock.Frame, bool) {
@@ -375,6 +527,10 @@ func encodeCase(c *core.Ctx, enc bool, vs []val) ([]mock.Frame, bool) {
 	desc := map[string]interface{}{"kind": "enc", "enc": enc, "vals": vs}
 	c.AddCase(fmt.Sprintf("CEnc %s %s %s", core.Bool(enc), core.List(vt), core.List(xs)), desc)
 	// oracle: byte layout equals the independent encoder
+	if hasNonFinite(vs) {
+		c.Count("enc-nonfinite-double (layout not defined by the format; model comparison only)")
+		return st.Out, true
+	}
 	c.OracleCheck()
 	if want := specEncode(enc, vs); !bytes.Equal(all, want) {
 		c.OracleFail("layout", fmt.Sprintf("emitted bytes differ from the format definition (enc=%v, %d values, %d vs %d bytes)", enc, len(vs), len(all), len(want)), desc)
@@ -385,6 +541,40 @@ func encodeCase(c *core.Ctx, enc bool, vs []val) ([]mock.Frame, bool) {
 		}
 	}
 	return st.Out, true
+}
+
+// hexl prints bytes as a list of Coq byte constructors ([x00; xff]); coqc elaborates
+// that more than twice as fast as an `hx "..."` string literal
+func hexl(b []byte) string {
+	if len(b) == 0 {
+		return "[]"
+	}
+	var sb strings.Builder
+	sb.WriteByte('[')
+	for i, x := range b {
+		if i > 0 {
+			sb.WriteByte(';')
+		}
+		fmt.Fprintf(&sb, "x%02x", x)
+	}
+	sb.WriteByte(']')
+	return sb.String()
+}
+
+// dbits prints a 64-bit pattern as (dbits [8 bytes]) - cheaper for coqc than a 20-digit literal
+func dbits(b uint64) string {
+	var t [8]byte
+	binary.BigEndian.PutUint64(t[:], b)
+	return "(dbits " + hexl(t[:]) + ")"
+}
+
+func hasNonFinite(vs []val) bool {
+	for _, v := range vs {
+		if v.Kind == "double" && !finiteBits(v.Bits) {
+			return true
+		}
+	}
+	return false
 }
 
 func decodeCase(c *core.Ctx, enc bool, frames []mock.Frame, ops []gop, expected []gres, desc map[string]interface{}) {
@@ -407,9 +597,15 @@ func decodeCaseT(c *core.Ctx, enc bool, frames []mock.Frame, dataTerm string, op
 			}
 		}
 		if !r.ok() {
+			if okAll {
+				c.Count("dec-result-" + r.Kind)
+			} else {
+				c.Count("dec-op-after-error")
+			}
 			okAll = false
-			c.Count("dec-result-" + r.Kind)
-			break
+			if r.Kind == "panic" {
+				break // the Message is not used again after a panic
+			}
 		}
 	}
 	for _, g := range ops[:len(obs)] {
@@ -487,8 +683,8 @@ func randVal(c *core.Ctx, small bool) val {
 }
 
 func gen(c *core.Ctx) error {
-	c.Rule("encode: random and boundary value sequences through the real Message writer on a recording stream, compared frame by frame with the model writer and byte for byte with an independent format encoder; decode: the encoded bytes re-cut at every single position (short sequences) and random multi-cuts, plus malformed inputs, through the real Message reader, compared op by op with the model reader. non-trivial = decode case in which every Get succeeded, or encode case; distinct by (mode, values, cuts)")
-	c.Assume("doubles (PutDouble/GetDouble) are not covered by this run")
+	c.Rule("encode: random and boundary value sequences (chars, integers of every width, strings, byte strings, doubles as 64-bit patterns) through the real Message writer on a recording stream, compared frame by frame with the model writer and byte for byte with an independent format encoder (math/big for doubles); decode: the encoded bytes re-cut at every single position (short sequences, every special double) and random multi-cuts, plus malformed inputs and integer pairs no encoder produces, through the real Message reader, compared op by op (also after an error result) with the model reader; oracles on the implementation: layout = format definition, decoded = sent (doubles: |decoded-sent| <= |sent|*2^-30 in exact rationals and bit-equal to the math/big reference decoder), EOM only on the last frame. non-trivial = decode case in which every Get succeeded, or encode case; distinct by (mode, values, cuts)")
+	c.Assume("float->int32 conversion of NaN/Inf is implementation-defined in Go; the model has the amd64 semantics (CVTTSD2SL, -2^31) and NaN/Inf cases are compared only when GOARCH=amd64 (this run: " + runtime.GOARCH + ")")
 	nSeq := 60
 	nBig := 6
 	if !c.Quick() {
@@ -610,7 +806,226 @@ func gen(c *core.Ctx) error {
 			}
 		}
 	}
+	genDoubles(c)
 	return nil
+}
+
+// ---- doubles ---------------------------------------------------------------
+func pow2bits(e int) uint64 { // 2^e as a pattern, -1074 <= e <= 1023
+	if e >= -1022 {
+		return uint64(e+1023) << 52
+	}
+	return 1 << uint(e+1074)
+}
+
+func doublePatterns(c *core.Ctx) (special, bulk []uint64) {
+	special = []uint64{
+		0, 1 << 63, // +0 -0
+		1, 1<<63 | 1, 2, 3, // smallest subnormals
+		1<<52 - 1, 1 << 52, 1<<52 + 1, // largest subnormal, smallest normal
+		0x7fefffffffffffff, 0xffefffffffffffff, // +-MaxFloat64
+		0x3ff0000000000000, 0xbff0000000000000, 0x3fe0000000000000, 0x3fefffffffffffff, 0x3ff0000000000001,
+		0x400921fb54442d18, 0x3fb999999999999a, 0x41dfffffffc00000, 0x41e0000000000000, 0xc1e0000000000000,
+		0x3fe0000000200000, 0x3fe00000001fffff, 0x3fe0000000100000, // fractions whose scaled value sits at / next to an integer
+		1<<29 + 1, 1 << 30, 1<<30 - 1, 3 << 29, 1<<31 + 5, // subnormals with ~30 significant bits
+	}
+	// every power of two with its two neighbours (all binary exponents, subnormals included)
+	step := 1
+	if c.Quick() {
+		step = 5
+	}
+	off := c.Rng.Intn(step)
+	for e := -1074 + off; e <= 1023; e += step {
+		p := pow2bits(e)
+		bulk = append(bulk, p, p+1)
+		if p > 1 {
+			bulk = append(bulk, p-1)
+		}
+		if c.Rng.Intn(2) == 0 {
+			bulk = append(bulk, p|1<<63)
+		}
+	}
+	// all-ones mantissa in every 16th exponent, random subnormals, random patterns
+	for E := uint64(0); E < 2047; E += 16 {
+		bulk = append(bulk, E<<52|(1<<52-1))
+	}
+	nr := 700
+	if !c.Quick() {
+		nr = 30000
+	}
+	for i := 0; i < nr; i++ {
+		b := c.Rng.Uint64()
+		switch i % 10 {
+		case 0:
+			b &^= 0x7ff << 52 // subnormal
+		case 1:
+			b = b&^(0x7ff<<52) | uint64(c.Rng.Intn(40))<<52 // tiny exponents
+		case 2:
+			b = b&^(0x7ff<<52) | uint64(2046-c.Rng.Intn(40))<<52 // huge exponents
+		case 3:
+			b &^= uint64(1)<<uint(c.Rng.Intn(52)) - 1 // few significant bits
+		}
+		if finiteBits(b) {
+			bulk = append(bulk, b)
+		}
+	}
+	return
+}
+
+func genDoubles(c *core.Ctx) {
+	special, bulk := doublePatterns(c)
+	nonfinite := []uint64{0x7ff0000000000000, 0xfff0000000000000, 0x7ff8000000000001, 0xfff8000000000000, 0x7ff0000000000001, 0x7fffffffffffffff}
+	dv := func(bs []uint64) []val {
+		var vs []val
+		for _, b := range bs {
+			vs = append(vs, val{Kind: "double", Bits: b})
+		}
+		return vs
+	}
+	exps := func(vs []val) []gres {
+		var out []gres
+		for _, v := range vs {
+			out = append(out, expect(v))
+		}
+		return out
+	}
+	classify := func(b uint64) string {
+		switch {
+		case !finiteBits(b):
+			return "double-nonfinite"
+		case b<<1 == 0:
+			return "double-zero"
+		case (b>>52)&0x7ff == 0:
+			return "double-subnormal"
+		}
+		return "double-normal"
+	}
+	for _, enc := range []bool{false, true} {
+		// 5a. special values alone: encode, then decode at EVERY cut position of the 16 bytes
+		for si, b := range special {
+			if enc && c.Quick() && si%5 != 0 {
+				continue // doubles are laid out identically in both modes
+			}
+			vs := dv([]uint64{b})
+			fr, ok := encodeCase(c, enc, vs)
+			if !ok {
+				continue
+			}
+			c.Count(classify(b))
+			all := concat(fr)
+			for cut := 0; cut <= len(all); cut++ {
+				if c.Quick() && (si >= 12 || enc) && cut > 1 && cut < 15 && (cut < 7 || cut > 9) {
+					continue // every position for the first dozen, the value/word edges for the rest
+				}
+				desc := map[string]interface{}{"kind": "dec", "enc": enc, "vals": vs, "cuts": []int{cut}}
+				decodeCase(c, enc, mock.Cut(all, []int{cut}), opsFor(vs), exps(vs), desc)
+				c.Nontrivial(fmt.Sprint("dbl", enc, b, cut))
+			}
+		}
+		// 5b. NaN / infinities: implementation-defined conversion, amd64 semantics in the model
+		if runtime.GOARCH == "amd64" {
+			for _, b := range nonfinite {
+				vs := dv([]uint64{b})
+				if fr, ok := encodeCase(c, enc, vs); ok {
+					c.Count(classify(b))
+					desc := map[string]interface{}{"kind": "dec-own-framing", "enc": enc, "vals": vs}
+					decodeCase(c, enc, fr, opsFor(vs), exps(vs), desc)
+				}
+			}
+		}
+		if enc {
+			continue // doubles are laid out identically in both modes: the bulk runs once
+		}
+		// 5c. bulk: groups of 40 doubles per message (frames compared with the model by length,
+		// checksum, head and tail; byte for byte with the format encoder); decoded at random multi-cuts
+		for i := 0; i < len(bulk); i += 40 {
+			j := i + 40
+			if j > len(bulk) {
+				j = len(bulk)
+			}
+			vs := dv(bulk[i:j])
+			fr, ok := encodeCase(c, enc, vs)
+			if !ok {
+				continue
+			}
+			for _, b := range bulk[i:j] {
+				c.Count(classify(b))
+			}
+			all := concat(fr)
+			var cs []int
+			for k := 0; k < 2+c.Rng.Intn(5); k++ {
+				cs = append(cs, c.Rng.Intn(len(all)+1))
+			}
+			sort.Ints(cs)
+			desc := map[string]interface{}{"kind": "dec", "enc": enc, "vals": vs, "cuts": cs}
+			decodeCase(c, enc, mock.Cut(all, cs), opsFor(vs), exps(vs), desc)
+			c.Nontrivial(fmt.Sprint("dblbulk", i, cs))
+		}
+		// 5d. decoding integer pairs no encoder produces: rounding into subnormals, underflow,
+		// overflow, int32 truncation of the wire integers; reference = math/big decoder
+		fracs := []int64{1, -1, 3, 1 << 30, 1<<30 + 1, 1<<31 - 1, -(1 << 31), 1<<31 - 2, 1234567891, -987654321, 1 << 31, 1<<32 + 5, -(1<<31 + 1), math.MaxInt64, math.MinInt64}
+		var pairs [][2]int64
+		estep := 1
+		if c.Quick() {
+			estep = 3
+			fracs = fracs[:11]
+		}
+		for _, f := range fracs {
+			for e := int64(-1112); e <= -1040; e += int64(estep) {
+				pairs = append(pairs, [2]int64{f, e})
+			}
+			for e := int64(990); e <= 1060; e += int64(estep * 2) {
+				pairs = append(pairs, [2]int64{f, e})
+			}
+			pairs = append(pairs, [2]int64{f, 0}, [2]int64{f, math.MaxInt32}, [2]int64{f, math.MinInt32}, [2]int64{f, 1 << 32}, [2]int64{f, -(1<<32 + 1060)}, [2]int64{f, math.MaxInt64})
+		}
+		np := 300
+		if !c.Quick() {
+			np = 8000
+		}
+		for i := 0; i < np; i++ {
+			f := int64(int32(c.Rng.Uint32()))
+			e := int64(c.Rng.Intn(2300) - 1150)
+			if i%7 == 0 {
+				f, e = int64(c.Rng.Uint64()), int64(c.Rng.Uint64())
+			}
+			pairs = append(pairs, [2]int64{f, e})
+		}
+		for i := 0; i < len(pairs); i += 30 {
+			j := i + 30
+			if j > len(pairs) {
+				j = len(pairs)
+			}
+			var data []byte
+			var ops []gop
+			for _, p := range pairs[i:j] {
+				data = append(data, i64(p[0])...)
+				data = append(data, i64(p[1])...)
+				ops = append(ops, gop{Op: "double"})
+			}
+			var cs []int
+			for k := 0; k < c.Rng.Intn(5); k++ {
+				cs = append(cs, c.Rng.Intn(len(data)+1))
+			}
+			sort.Ints(cs)
+			fr := mock.Cut(data, cs)
+			desc := map[string]interface{}{"kind": "dec-pairs", "enc": enc, "pairs": pairs[i:j], "cuts": cs}
+			// oracle: the real decoder agrees bit for bit with the math/big reference decoder
+			st := &mock.Stream{Enc: enc, In: append([]mock.Frame(nil), fr...)}
+			m := message.NewMessageFromStream(st)
+			for k, p := range pairs[i:j] {
+				r := doGet(m, gop{Op: "double"})
+				c.OracleCheck()
+				if want := specDoubleDecode(p[0], p[1]); r.Kind != "double" || r.Bits != want {
+					c.OracleFail("double-decode", fmt.Sprintf("GetDouble of wire integers (%d, %d) returned %s, the format prescribes pattern %d", p[0], p[1], r.term(), want),
+						map[string]interface{}{"kind": "dec-pairs", "enc": enc, "pairs": pairs[i+k : i+k+1], "cuts": []int{}})
+				}
+			}
+			c.CountN("double-decode-pairs", j-i)
+			decodeCase(c, enc, fr, ops, nil, desc)
+			c.Nontrivial(fmt.Sprint("dblpairs", i, cs))
+		}
+	}
 }
 
 func decodeCaseDesc(c *core.Ctx, enc bool, fr []mock.Frame, ops []gop, exp []gres, desc map[string]interface{}) {
@@ -632,13 +1047,29 @@ func concat(fr []mock.Frame) []byte {
 
 func replay(raw json.RawMessage) error {
 	var d struct {
-		Kind string `json:"kind"`
-		Enc  bool   `json:"enc"`
-		Vals []val  `json:"vals"`
-		Cuts []int  `json:"cuts"`
+		Kind  string     `json:"kind"`
+		Enc   bool       `json:"enc"`
+		Vals  []val      `json:"vals"`
+		Cuts  []int      `json:"cuts"`
+		Pairs [][2]int64 `json:"pairs"`
 	}
 	if err := json.Unmarshal(raw, &d); err != nil {
 		return err
+	}
+	if d.Kind == "dec-pairs" {
+		var data []byte
+		for _, p := range d.Pairs {
+			data = append(data, i64(p[0])...)
+			data = append(data, i64(p[1])...)
+		}
+		rm := message.NewMessageFromStream(&mock.Stream{Enc: d.Enc, In: mock.Cut(data, d.Cuts)})
+		for _, p := range d.Pairs {
+			r := doGet(rm, gop{Op: "double"})
+			if want := specDoubleDecode(p[0], p[1]); r.Kind != "double" || r.Bits != want {
+				return fmt.Errorf("GetDouble of (%d, %d) returned %s, want pattern %d", p[0], p[1], r.term(), want)
+			}
+		}
+		return nil
 	}
 	st := &mock.Stream{Enc: d.Enc}
 	m := message.NewMessageForStream(st)
@@ -651,7 +1082,7 @@ func replay(raw json.RawMessage) error {
 		return err
 	}
 	all := concat(st.Out)
-	if !bytes.Equal(all, specEncode(d.Enc, d.Vals)) {
+	if !hasNonFinite(d.Vals) && !bytes.Equal(all, specEncode(d.Enc, d.Vals)) {
 		return fmt.Errorf("layout differs from the format definition: got %x", all)
 	}
 	fr := st.Out
